@@ -1,1 +1,307 @@
-// verification harness include for heap (see /verif/DESIGN.md)
+// Included at the end of /repo/src/intrusive_pairing_heap.rs under cfg(futures_intrusive_verif).
+// C20 (heap part): the pairing heap always exposes a minimum and supports removal of any member
+// (duplicates, re-insertion); links stay mutually consistent; removed nodes carry no links.
+// Also provides read-only accessors for the timer harness (C01/C15).
+
+impl<T> HeapNode<T> {
+    pub(crate) fn verif_unlinked(&self) -> bool {
+        self.parent.is_none() && self.prev.is_none() && self.next.is_none() && self.first_child.is_none()
+    }
+}
+
+pub(crate) mod verif_heap {
+    use super::*;
+    use crate::verif::common::*;
+
+    pub const K: usize = 5;
+    type N = HeapNode<u8>;
+
+    pub const W_REMOVE_INNER: u32 = 1; // removed a node that has a parent and >= 2 children
+    pub const W_REMOVE_ROOT3: u32 = 2; // removed the root while it had >= 3 children
+    pub const W_REINSERT: u32 = 4; // inserted a node that had been a member before
+    pub const W_DUP_MIN: u32 = 8; // two members share the minimum key
+
+    unsafe fn idx(tab: &[*mut N; K], p: NonNull<N>) -> usize {
+        let mut i = 0;
+        while i < K {
+            if tab[i] == p.as_ptr() { return i; }
+            i += 1;
+        }
+        K
+    }
+    fn nn(p: *mut N) -> Option<NonNull<N>> { NonNull::new(p) }
+
+    /// Structural validator over the node table: parent/child/sibling links mutually consistent, single root,
+    /// every member reaches the root, heap order, non-members carry no links; peek_min is a minimum.
+    pub unsafe fn validate(heap: &PairingHeap<u8>, tab: &[*mut N; K], member: &[bool; K]) {
+        let mut cnt = 0usize;
+        let mut roots = 0usize;
+        let mut i = 0;
+        while i < K {
+            let n = &*tab[i];
+            let me = nn(tab[i]);
+            if !member[i] {
+                assert!(n.verif_unlinked(), "C20 heap: a node outside the heap still carries links");
+            } else {
+                cnt += 1;
+                match n.parent {
+                    None => {
+                        roots += 1;
+                        assert!(heap.root == me, "C20 heap: a member without parent is not the root");
+                        assert!(n.prev.is_none() && n.next.is_none(), "C20 heap: the root has siblings");
+                    }
+                    Some(p) => {
+                        let pi = idx(tab, p);
+                        assert!(pi < K && member[pi] && pi != i, "C20 heap: parent link leaves the member set");
+                        assert!((*tab[pi]).data <= n.data, "C20 heap: heap order violated");
+                        match n.prev {
+                            None => assert!((*tab[pi]).first_child == me, "C20 heap: first child link inconsistent"),
+                            Some(q) => {
+                                let qi = idx(tab, q);
+                                assert!(qi < K && member[qi] && (*tab[qi]).next == me, "C20 heap: prev/next links inconsistent");
+                                assert!((*tab[qi]).parent == n.parent, "C20 heap: siblings with different parents");
+                            }
+                        }
+                    }
+                }
+                if let Some(q) = n.next {
+                    let qi = idx(tab, q);
+                    assert!(qi < K && member[qi] && (*tab[qi]).prev == me, "C20 heap: next/prev links inconsistent");
+                }
+                if let Some(c) = n.first_child {
+                    let ci = idx(tab, c);
+                    assert!(ci < K && member[ci] && (*tab[ci]).parent == me && (*tab[ci]).prev.is_none(),
+                        "C20 heap: first_child/parent links inconsistent");
+                }
+                // reaches the root within K steps (no parent cycle)
+                let mut cur = n;
+                let mut d = 0;
+                while d < K {
+                    match cur.parent { None => break, Some(p) => { cur = &*p.as_ptr(); } }
+                    d += 1;
+                }
+                assert!(cur.parent.is_none(), "C20 heap: parent chain does not reach the root");
+            }
+            i += 1;
+        }
+        if cnt == 0 {
+            assert!(heap.root.is_none(), "C20 heap: empty heap has a root");
+            assert!(heap.peek_min().is_none(), "C20 heap: peek_min on an empty heap");
+        } else {
+            assert!(roots == 1, "C20 heap: not exactly one root");
+            let m = heap.peek_min();
+            assert!(m.is_some(), "C20 heap: peek_min is None on a non-empty heap");
+            let mk = m.unwrap().as_ref().data;
+            i = 0;
+            while i < K {
+                if member[i] { assert!(mk <= (*tab[i]).data, "C20 heap: peek_min is not a minimum"); }
+                i += 1;
+            }
+        }
+    }
+
+    unsafe fn nchildren(n: &N) -> usize {
+        let mut c = 0;
+        let mut cur = n.first_child;
+        let mut d = 0;
+        while d < K {
+            match cur { None => break, Some(p) => { c += 1; cur = p.as_ref().next; } }
+            d += 1;
+        }
+        c
+    }
+
+    /// One operation: insert(non-member, symbolic key; re-insertion allowed) or remove(any member).
+    pub unsafe fn apply<S: Src>(s: &mut S, heap: &mut PairingHeap<u8>, tab: &[*mut N; K], member: &mut [bool; K],
+                                was: &mut [bool; K], kmax: usize, opsel: u8) -> u32 {
+        let op = if opsel < 2 { opsel } else { s.below(2) };
+        let t = s.below(kmax as u8) as usize;
+        let mut bits = 0;
+        if op == 0 {
+            s.assume(!member[t]);
+            let key = s.below(3);
+            (*tab[t]).data = key;
+            if was[t] { bits |= W_REINSERT; }
+            heap.insert(&mut *tab[t]);
+            member[t] = true;
+            was[t] = true;
+        } else {
+            s.assume(member[t]);
+            let n = &*tab[t];
+            let ch = nchildren(n);
+            if n.parent.is_some() && ch >= 2 { bits |= W_REMOVE_INNER; }
+            if n.parent.is_none() && ch >= 3 { bits |= W_REMOVE_ROOT3; }
+            heap.remove(&mut *tab[t]);
+            member[t] = false;
+        }
+        bits
+    }
+
+    /// E-HIST from the empty heap; after every operation peek_min is compared with the minimum key of the
+    /// model multiset; the structural validator runs after every operation natively (`every`) and once after a
+    /// symbolically chosen stopping point in the model.
+    pub fn hist<S: Src>(s: &mut S, n: usize, kmax: usize, pre: usize, every: bool) -> u32 {
+        let mut n0 = HeapNode::new(0u8);
+        let mut n1 = HeapNode::new(0u8);
+        let mut n2 = HeapNode::new(0u8);
+        let mut n3 = HeapNode::new(0u8);
+        let mut n4 = HeapNode::new(0u8);
+        let tab: [*mut N; K] = [&mut n0, &mut n1, &mut n2, &mut n3, &mut n4];
+        let mut heap = PairingHeap::<u8>::new();
+        let mut member = [false; K];
+        let mut was = [false; K];
+        let mut bits = 0;
+        let mut step = 0;
+        unsafe {
+            while step < n && !s.exhausted() {
+                step += 1;
+                if step <= pre {
+                    // partition: the first `pre` operations insert node #step-1 with a symbolic key
+                    let t = step - 1;
+                    (*tab[t]).data = s.below(3);
+                    heap.insert(&mut *tab[t]);
+                    member[t] = true;
+                    was[t] = true;
+                } else {
+                    if s.u8() & 1 == 1 { break; }
+                    bits |= apply(s, &mut heap, &tab, &mut member, &mut was, kmax, 2);
+                }
+                // cheap per-step oracle: peek_min carries the minimum key of the members
+                let mut mn: Option<u8> = None;
+                let mut i = 0;
+                while i < K {
+                    if member[i] { let k = (*tab[i]).data; if mn.map_or(true, |m| k < m) { mn = Some(k); } }
+                    i += 1;
+                }
+                let pk = heap.peek_min().map(|p| p.as_ref().data);
+                assert!(pk == mn, "C20 heap: peek_min does not carry the minimum key of the members");
+                if every { validate(&heap, &tab, &member); }
+            }
+            validate(&heap, &tab, &member);
+        }
+        s.reached(bits);
+        bits
+    }
+
+    #[no_mangle]
+    pub fn fi_verif_replay_heap(name: &str, cfg: u32, _p: u32, s: &mut ScriptSrc<'_>) -> bool {
+        match name {
+            "heap_hist" => { hist(s, 64, if cfg & 15 == 0 { K } else { (cfg & 15) as usize }, (cfg >> 4) as usize, true); }
+            _ => return false,
+        }
+        true
+    }
+
+    #[cfg(kani)]
+    mod proofs {
+        use super::*;
+
+        fn key() -> u8 { let k: u8 = kani::any(); kani::assume(k < 3); k }
+
+        /// E-STEP: ANY heap-ordered multiway tree over a subset of kmax nodes (symbolic parent map with an
+        /// acyclicity rank, symbolic sibling order, keys from a 3-value set), one insert or remove.
+        /// Every such tree is a valid pairing heap (there is no balance invariant), so no reachability
+        /// strengthening is needed.
+        fn step(kmax: usize, opsel: u8) {
+            let mut n0 = HeapNode::new(key());
+            let mut n1 = HeapNode::new(key());
+            let mut n2 = HeapNode::new(key());
+            let mut n3 = HeapNode::new(key());
+            let mut n4 = HeapNode::new(key());
+            let tab: [*mut N; K] = [&mut n0, &mut n1, &mut n2, &mut n3, &mut n4];
+            let mut member: [bool; K] = kani::any();
+            let par: [u8; K] = kani::any(); // K = none (root)
+            let dep: [u8; K] = kani::any(); // acyclicity rank: parent has a smaller one
+            let rank: [u8; K] = kani::any(); // sibling order
+            let mut heap = PairingHeap::<u8>::new();
+            let mut i = 0;
+            let mut roots = 0;
+            let mut cntm = 0;
+            unsafe {
+                while i < K {
+                    if i >= kmax { kani::assume(!member[i]); }
+                    kani::assume(par[i] as usize <= K && dep[i] as usize <= K && (rank[i] as usize) < K);
+                    if member[i] {
+                        cntm += 1;
+                        if par[i] as usize == K { roots += 1; } else {
+                            let p = par[i] as usize;
+                            kani::assume(p != i && member[p] && dep[p] < dep[i] && (*tab[p]).data <= (*tab[i]).data);
+                        }
+                    }
+                    let mut j = 0;
+                    while j < i { kani::assume(rank[i] != rank[j]); j += 1; }
+                    i += 1;
+                }
+                kani::assume((cntm == 0 && roots == 0) || roots == 1);
+                i = 0;
+                while i < K {
+                    if member[i] {
+                        if par[i] as usize == K {
+                            heap.root = nn(tab[i]);
+                        } else {
+                            let p = par[i] as usize;
+                            (*tab[i]).parent = nn(tab[p]);
+                            let mut prev: usize = K;
+                            let mut next: usize = K;
+                            let mut j = 0;
+                            while j < K {
+                                if j != i && member[j] && par[j] == par[i] {
+                                    if rank[j] < rank[i] && (prev == K || rank[prev] < rank[j]) { prev = j; }
+                                    if rank[j] > rank[i] && (next == K || rank[next] > rank[j]) { next = j; }
+                                }
+                                j += 1;
+                            }
+                            if prev != K { (*tab[i]).prev = nn(tab[prev]); } else { (*tab[p]).first_child = nn(tab[i]); }
+                            if next != K { (*tab[i]).next = nn(tab[next]); }
+                        }
+                    }
+                    i += 1;
+                }
+                validate(&heap, &tab, &member); // sanity of the builder
+                let mut was = [false; K];
+                let bits = apply(&mut KaniSrc, &mut heap, &tab, &mut member, &mut was, kmax, opsel);
+                validate(&heap, &tab, &member);
+                if opsel != 0 {
+                    kani::cover!(bits & W_REMOVE_INNER != 0, "W heap step: inner node with >= 2 children removed");
+                }
+                if opsel != 0 && kmax >= 4 {
+                    kani::cover!(bits & W_REMOVE_ROOT3 != 0, "W heap step: root with >= 3 children removed");
+                }
+            }
+        }
+        #[kani::proof]
+        #[kani::unwind(7)]
+        fn heap_step_k4() { step(4, 2) }
+        #[kani::proof]
+        #[kani::unwind(7)]
+        fn heap_step_k5_insert() { step(5, 0) }
+        #[kani::proof]
+        #[kani::unwind(7)]
+        fn heap_step_k5_remove() { step(5, 1) }
+
+        #[kani::proof]
+        #[kani::unwind(7)]
+        fn heap_hist_k3_n5() { let b = hist(&mut KaniSrc, 5, 3, 0, false); kani::cover!(b & W_REINSERT != 0, "W heap hist: re-insertion"); }
+        #[kani::proof]
+        #[kani::unwind(7)]
+        fn heap_hist_k4_n6() { let b = hist(&mut KaniSrc, 6, 4, 0, false); kani::cover!(b & W_REINSERT != 0, "W heap hist: re-insertion"); }
+        #[kani::proof]
+        #[kani::unwind(9)]
+        fn heap_hist_k5_n8() { let b = hist(&mut KaniSrc, 8, 5, 0, false); kani::cover!(b & W_REMOVE_ROOT3 != 0, "W heap hist: root with >= 3 children removed"); }
+        #[kani::proof]
+        #[kani::unwind(7)]
+        fn heap_hist_k3_n4() { let b = hist(&mut KaniSrc, 4, 3, 0, false); kani::cover!(b & W_REINSERT != 0, "W heap hist: re-insertion"); }
+        #[kani::proof]
+        #[kani::unwind(7)]
+        fn heap_hist_k4_p4_n6() { let b = hist(&mut KaniSrc, 6, 4, 4, false); kani::cover!(b & W_REMOVE_ROOT3 != 0, "W heap hist: root with >= 3 children removed"); }
+        #[kani::proof]
+        #[kani::unwind(9)]
+        fn heap_hist_k5_p5_n8() { let b = hist(&mut KaniSrc, 8, 5, 5, false); kani::cover!(b & W_REMOVE_ROOT3 != 0, "W heap hist: root with >= 3 children removed"); }
+        #[kani::proof]
+        #[kani::unwind(7)]
+        fn heap_witness_k4_n6() {
+            let b = hist(&mut KaniSrc, 6, 4, 4, false);
+            assert!(b & W_REMOVE_ROOT3 == 0, "WITNESS reached");
+        }
+    }
+}
